@@ -24,8 +24,34 @@ set-free values).
 
 NOT PROVED HERE (correspondence and predicate search only): values containing sets (the
 decoder rebuilds the set through the hash oracle; iteration order ≠ storage order).
+
+THE BYTE LEVEL.  Every theorem below is about token trees, so "the bytes are valid JSON" has
+no theorem of its own.  It rests on three things, each visible here or checked on every run:
+(1) `encoding/json` is the lexer: the harness lexes the REAL output of every `Marshal` call
+with `encoding/json`'s `Decoder` (one value, then EOF) and fails the check at site `valid-json`
+if it does not lex — searched, not proved; since harness/c15names.go the generated attribute
+names, map keys and strings include control characters, DEL, U+2028, non-printable astral
+code points, quotes and backslashes.  (2) A cty string becomes bytes in exactly one place,
+`json.Marshal(val.AsString())` — Go's own JSON string encoder, trusted — and BOTH object
+attribute names and map keys reach the buffer through that same place, by a recursive
+`marshal(cty.StringVal(k), cty.String, …)` / `marshal(ek, ek.Type(), …)`; everything else the
+encoder writes is a punctuation / keyword literal, math/big's decimal text, or the output of
+`MarshalType` / `json.Marshal` of a capsule.  That is a REGENERATED FACT
+(`Generated.jsonEmitEvents`, re-read from cty/json/marshal.go by extract/jsonemit.go on every
+check; any other use of the output buffer makes the extractor fail closed) and
+`strings_names_keys_share_one_encoder` decides it: a change such as writing attribute names
+with `strconv.Quote` breaks that theorem before any input is generated.  (3) math/big's
+`Text('f', -1)` of a finite number is a JSON number literal (digits, optional '-', optional
+fraction): modelled (`Num.textF`) and diffed on every run, its syntax not proved.
+
+`impliedType` is type_implied.go WITHOUT its depth counter; the function the code has and the
+harness compares is `impliedTypeGo` (`CtyModel/JsonD15.lean`, the limit re-read from the source):
+`implied_type_go_exact` ties the two.
 -/
 import CtyModel.Lemmas.JsonValRT
+import CtyModel.Lemmas.d15Implied
+import CtyModel.Lemmas.d15Mirror
+import CtyModel.Lemmas.d15Emit
 import CtyModel.Lemmas.JsonValStrip
 import CtyModel.Lemmas.JsonValNoOpt
 import CtyModel.Lemmas.JsonValReject
@@ -234,6 +260,71 @@ theorem mirror_structure (env : JEnv) (v : Value) (j : Json) (hd : hasDyn v.ty =
     (isKnown_of_whollyKnown hk (isMarked_of_containsMarked hm))] at hj
   exact mirror_known env v.v v.ty j ⟨hd, hs, hw, hk, hm⟩ hj
 
+/-- The same clause for ANY constraint (audit C15 item 2, missing theorem (b)): whatever the
+constraint is — placeholders at any position — whenever the encoder returns a document for a
+value without set types, that document has the structure `mirrorsW` describes: exactly at the
+positions where the constraint is the placeholder (and the value's type is not) a two-member
+object `{"value": x, "type": τ}`, τ being the type document `MarshalType` gives for the value's
+type there and x the encoding of the value against its OWN type; below and elsewhere null as
+null, a bool / string as itself, a number as its decimal text, a list or tuple as an array
+with one entry per element in order, a map or object as an object with exactly the value's
+keys in order.  No hypothesis on knownness, marks or conformance is needed: the encoder
+answers `ok` for nothing else. -/
+theorem mirror_structure_any_constraint (env : JEnv) (v : Value) (t : Ty) (j : Json)
+    (hs : setFree v.ty = true) (hj : marshal env v t = .ok j) : mirrorsW t v.ty v.v j = true :=
+  mirrorW_entry env v.v t v.ty j hs hj
+
+/-- non-vacuous, and what it looks like: the sample value of the non-vacuity section (a
+placeholder at the top-level attribute `a` and inside the map) is encoded with two wrappers -/
+example : marshal env0 ⟨.object ["a", "b"] [.list .string, .map .bool] [false, false],
+      .smap ["a", "b"] [.seq [.s "x", .null], .smap ["k"] [.b true]]⟩
+      (.object ["a", "b"] [.dyn, .map .dyn] [false, false]) =
+    .ok (.obj ["a", "b"] [.obj ["value", "type"] [.arr [.str "x", .null], .arr [.str "list", .str "string"]],
+      .obj ["k"] [.obj ["value", "type"] [.bool true, .str "bool"]]]) := by rfl
+
+/-- … and a document WITHOUT the wrapper at a placeholder position does not pass (the seeded
+change C15-dynamic-wrapper-skipped-for-typed-nulls in one instance: a typed null written
+bare) -/
+example : mirrorsW .dyn .string .null .null = false ∧
+    mirrorsW .dyn .string .null (.obj ["value", "type"] [.null, .str "string"]) = true ∧
+    mirrorsW .dyn .string .null (.obj ["value", "type"] [.null, .str "number"]) = false := by decide
+
+/-- against a placeholder-free constraint `mirrorsW` is the plain mirror: no wrapper anywhere
+(the instance `mirror_structure` is about) -/
+example : mirrorsW (.tuple [.number, .list .string]) (.tuple [.number, .list .string])
+      (.seq [.n (.fin false 3 (-1) 53), .seq [.s "a"]]) (.arr [.num "1.5", .arr [.str "a"]]) = true ∧
+    mirrors (.seq [.n (.fin false 3 (-1) 53), .seq [.s "a"]]) (.arr [.num "1.5", .arr [.str "a"]]) = true := by
+  decide +kernel
+
+/-! ## The byte level: where strings, attribute names and map keys become bytes -/
+
+/-- REGENERATED FACT about cty/json/marshal.go (see the header, "THE BYTE LEVEL"), decided
+over the table extracted on every check:
+* every write into the output buffer is a literal of `JsonEmit.literalWrites` (JSON
+  punctuation, `null` / `true` / `false`, the two halves of the wrapper object) or one of the
+  four computed writes (`json.Marshal` of the string, `Text('f', -1)` of the number,
+  `json.Marshal` of a capsule's value, `MarshalType` of the type);
+* the thing done immediately before a `:` is written — how a member NAME reaches the output —
+  is, in the map branch and in the object branch alike, a recursive call of `marshal` with a
+  string value and a string type (`ek` is the key `ElementIterator` yields for a map, a
+  `cty.String`; `cty.StringVal(k)` the attribute name);
+* the `cty.String` branch of `marshal` does exactly one thing with the buffer: it writes the
+  result of `json.Marshal(val.AsString())`.
+So attribute names and map keys are escaped by the same call that escapes string values.
+The seeded change C15-object-attr-names-go-quoted-in-json-marshal (`b.WriteString(strconv.Quote(k))`)
+falsifies the first two conjuncts. -/
+theorem strings_names_keys_share_one_encoder :
+    JsonEmit.allWritesOk Generated.jsonEmitEvents = true ∧
+    JsonEmit.nameEmitters Generated.jsonEmitEvents =
+      [("t.IsMapType()", "call", "marshal", "ek", "ek.Type()"),
+       ("t.IsObjectType()", "call", "marshal", "cty.StringVal(k)", "cty.String")] ∧
+    JsonEmit.branchEvents "cty.String" Generated.jsonEmitEvents = [JsonEmit.stringWrite] := by
+  decide
+
+/-- the predicate is not vacuous: the seeded shape is refused -/
+example : JsonEmit.allWritesOk
+    [⟨"marshal", "t.IsObjectType()", "write", "WriteString", "strconv.Quote(k)", ""⟩] = false := by decide
+
 /-! ## Values JSON cannot represent -/
 
 /-- A value that contains a mark, an unknown or an infinite number ANYWHERE is never
@@ -368,6 +459,47 @@ theorem simple_unmarshal_typed (env : JEnv) (d : Json) (h : docOK env d = true) 
     ∃ v, simpleUnmarshal env d = .ok v ∧ v.ty = structTy env.norm d := by
   obtain ⟨hi, v, _, hu, hty, _, _⟩ := doc_roundtrip_partial env d h
   exact ⟨v, by simp [simpleUnmarshal, hi, hu], hty⟩
+
+/-! ## `ImpliedType` as the code has it: the nesting limit (/repo 0c63e6a) -/
+
+/-- `ImpliedType` (with the depth counter of type_implied.go, limit re-read from the source:
+`Generated.jsonMaxImpliedTypeDepth` = 10000) against the plain recursion `impliedType` every
+theorem above is about: on a document whose arrays and objects are nested at most 10000
+deep the two are THE SAME function (result or failure); a deeper document is never answered
+with a type (it is an error, or whatever an earlier member already failed with). -/
+theorem implied_type_go_exact (env : JEnv) (j : Json) :
+    (nest j ≤ Generated.jsonMaxImpliedTypeDepth → impliedTypeGo env j = impliedType env j) ∧
+    (nest j > Generated.jsonMaxImpliedTypeDepth → ∀ t, impliedTypeGo env j ≠ .ok t) :=
+  ⟨fun h => impliedTypeD_eq env _ j 0 (by omega), fun h => impliedTypeD_deep env _ j 0 (Nat.zero_le _) (by omega)⟩
+
+/-- THE FULL STATEMENT of the implied-type clause for the documents of `doc_roundtrip_partial`,
+about the code's function.  FALSE since /repo 0c63e6a put a nesting limit into `ImpliedType`
+(a deliberate repair of a stack exhaustion, documented in the source: not a defect) — kept
+visible; see the counterexample. -/
+def implied_type_structural_any_depth : Prop :=
+  ∀ (env : JEnv) (d : Json), docOK env d = true → impliedTypeGo env d = .ok (structTy env.norm d)
+
+/-- What holds: up to the limit.  The document round trip with the code's `ImpliedType`. -/
+theorem doc_roundtrip_go_partial (env : JEnv) (d : Json) (h : docOK env d = true)
+    (hd : nest d ≤ Generated.jsonMaxImpliedTypeDepth) :
+    impliedTypeGo env d = .ok (structTy env.norm d) ∧
+    ∃ v d', simpleUnmarshalGo env d = .ok v ∧ v.ty = structTy env.norm d ∧
+      marshal env v (structTy env.norm d) = .ok d' ∧ jsonNormEq env.norm d' d = true := by
+  obtain ⟨hi, v, d', hu, hty, hm, he⟩ := doc_roundtrip_partial env d h
+  have hg := (implied_type_go_exact env d).1 hd
+  refine ⟨hg.trans hi, v, d', ?_, hty, hm, he⟩
+  simp [simpleUnmarshalGo, hg, hi, hu]
+
+/-- COUNTEREXAMPLE to the unbounded statement: 10001 arrays inside each other around `null`
+— a valid document without any key or number — has no implied type. -/
+theorem implied_type_structural_any_depth_counterexample : ¬ implied_type_structural_any_depth := fun h =>
+  (implied_type_go_exact env0 (nestArr (Generated.jsonMaxImpliedTypeDepth + 1))).2
+    (by rw [nest_nestArr]; omega) _ (h env0 _ (docOK_nestArr env0 _))
+
+/-- the side condition is satisfiable together with `docOK` by a nested document, and the
+limit is the one of the source -/
+example : docOK env0 (.obj ["a"] [.arr [.obj [] [], .null]]) = true ∧
+    nest (.obj ["a"] [.arr [.obj [] [], .null]]) = 3 ∧ Generated.jsonMaxImpliedTypeDepth = 10000 := by decide
 
 /-! ## Sets — not proved; the full statement is false
 
